@@ -195,9 +195,11 @@ bool ta_selftest(void) {
 #define TG_MAGIC 0x7a67c0deb10c5afeull
 #define TG_DEAD 0xdeadf7eedeadf7eeull
 struct tg_hdr { uint64_t magic, size, serial, pad; };
-uint64_t TG_bad_magic, TG_allocs, TG_frees, TG_live;
+uint64_t TG_bad_magic, TG_allocs, TG_frees, TG_live, TG_refused;
+bool TG_refuse_all;
 static uint64_t tg_serial;
 static void* tg_malloc(size_t n) {
+  if (TG_refuse_all) { TG_refused++; return NULL; }
   if (n > ((size_t)1 << 20)) return NULL; /* keep huge declared counts on the refusal path */
   struct tg_hdr* h = malloc(n + sizeof *h);
   if (!h) return NULL;
@@ -219,6 +221,7 @@ static void tg_free(void* p) {
   free(h);
 }
 static void* tg_realloc(void* p, size_t n) {
+  if (TG_refuse_all) { TG_refused++; return NULL; }
   if (!p) return tg_malloc(n);
   struct tg_hdr* h = (struct tg_hdr*)p - 1;
   if (h->magic != TG_MAGIC || h->pad != ~TG_MAGIC) {
@@ -244,7 +247,8 @@ struct ar_hdr { uint64_t size; uint64_t state; };
 static uint8_t* ar_base[2];
 static size_t ar_top[2];
 static int ar_zone;
-uint64_t AR_foreign_free, AR_allocs, AR_frees, AR_live;
+uint64_t AR_foreign_free, AR_allocs, AR_frees, AR_live, AR_refused;
+bool AR_refuse_all;
 volatile int vh_in_lib;
 uint64_t VH_bypass_calls;
 #define AR_CLASSES 48
@@ -303,6 +307,7 @@ bool ar_block_of(const void* addr, uintptr_t* base, size_t* size) {
 }
 static void* ar_malloc(size_t n) {
   ar_init();
+  if (AR_refuse_all) { AR_refused++; return NULL; }
   if (n > ((size_t)1 << 20)) return NULL; /* keep huge declared counts on the refusal path */
   int z = ar_zone, c = ar_class(n);
   struct ar_hdr* h = ar_freelist[z][c];
@@ -335,6 +340,7 @@ static void ar_free(void* p) {
   AR_frees++; AR_live--;
 }
 static void* ar_realloc(void* p, size_t n) {
+  if (AR_refuse_all) { AR_refused++; return NULL; }
   if (!p) return ar_malloc(n);
   int z = ar_zone_of(p);
   struct ar_hdr* h = (struct ar_hdr*)p - 1;
